@@ -64,7 +64,7 @@ PROPS["C03"] = dict(
     rule=PAIR_RULE + "; implementation answers A.Contains(B), B.Contains(A) compared with the Coq model and with the arrangement oracle covers_x",
     trusted_base=COMMON_TB + ["the executable arrangement oracle coq/PairSpec.v (covers_x) as ground truth: its completeness is not proved (DESIGN §9)"],
     assumptions=["float64 exact on D"],
-    partial=["strict containment of a segment is proved exact as a point-set statement for rings not flagged convex (JordanQ.v) and for convex rings (Convex.v: every vertex weakly on the inner side of every edge line), and containment with contact allowed in general position (JordanGP.v); Line.ContainsLine is proved exact as a point-set statement - true exactly when every rational point of the argument lies on a segment of the receiver (LineSound.v, LineComplete.v: walk invariant + a counting argument), with the flat-rectangle corollary; containment with boundary contact for concave rings / holes is explored against the oracle, not proved; the pinned tree violates it in contact configurations (KNOWN_FINDINGS.txt)"],
+    partial=["strict containment of a segment is proved exact as a point-set statement for rings not flagged convex (JordanQ.v) and for convex rings (Convex.v: every vertex weakly on the inner side of every edge line), and containment with contact allowed in general position (JordanGP.v); Line.ContainsLine is proved exact as a point-set statement - true exactly when every rational point of the argument lies on a segment of the receiver (LineSound.v, LineComplete.v: walk invariant + a counting argument) - and so is Line.ContainsRect for every well-formed rectangle (LineRect.v: a rectangle of positive width and height cannot be covered by finitely many segments) and Point.ContainsPoly (PointPoly.v): 12 of the 16 ordered kind pairs are exact for all inputs, the remaining four (Line x Polygon, Polygon x Rect / Line / Polygon) are the ones that go through ringContainsSegment with contact; containment with boundary contact for concave rings / holes is explored against the oracle, not proved; the pinned tree violates it in contact configurations (KNOWN_FINDINGS.txt)"],
 )
 PROPS["C12"] = dict(
     translated_functions=['Segment.Rect', 'Segment.CollinearPoint', 'Segment.ContainsPoint', 'Segment.ContainsSegment', 'Segment.IntersectsSegment', 'Rect.ContainsPoint', 'Rect.IntersectsPoint', 'Rect.ContainsRect', 'Rect.IntersectsRect', 'Rect.Area', 'Point.ContainsPoint', 'Point.IntersectsPoint', 'Point.IntersectsRect', 'Point.ContainsRect', 'Rect.IntersectsLine', 'Rect.IntersectsPoly', 'Point.IntersectsLine', 'Point.IntersectsPoly', 'Line.IntersectsPoint', 'Line.IntersectsRect', 'Line.IntersectsPoly', 'Poly.IntersectsPoint', 'Poly.IntersectsRect', 'Rect.ContainsLine', 'Rect.ContainsPoly', 'Point.ContainsLine', 'Point.ContainsPoly', 'Poly.ContainsRect'],
@@ -72,7 +72,7 @@ PROPS["C12"] = dict(
     rule=PAIR_RULE + "; every pair re-run under translation, Move, scaling by 2^k, x->-x, y->-y, transpose, start-vertex rotation (first, random, last), reversal, closing vertex toggled; the four answers must equal those of the untransformed pair",
     trusted_base=COMMON_TB,
     assumptions=["float64 exact on D (also after translation/scaling: the harness keeps |k| <= 2^23)"],
-    partial=["translation and positive scaling are proved for every pair predicate of the model (AffinePairs.v); the reflections x -> -x, y -> -y and the transposition x <-> y are proved for point membership in rings and polygons with holes and for the Intersects answers of ring x segment / line / ring (Crossing.v: ray-direction independence; Mirror.v, MirrorY.v, Symmetry.v) and for Line.ContainsLine (SymmetryLine.v, through its point-set exactness); reflection / re-encoding invariance of ring-level contains, and of intersects with holes, is explored (metamorphic), not proved - it fails exactly on the known findings"],
+    partial=["translation and positive scaling are proved for every pair predicate of the model (AffinePairs.v); the reflections x -> -x, y -> -y and the transposition x <-> y are proved for point membership in rings and polygons with holes and for the Intersects answers of ring x segment / line / ring (Crossing.v: ray-direction independence; Mirror.v, MirrorY.v, Symmetry.v) and for Line.ContainsLine (SymmetryLine.v, through its point-set exactness), IntersectsSegment, Line.IntersectsLine and line membership (SymmetrySeg.v); independence of the starting vertex and of the winding direction is proved for point membership in rings and polygons with holes and for the Intersects answers of ring x segment / line / ring (StartVertex.v: the edge cycle is permuted, reversal swaps edge ends); reflection / re-encoding invariance of ring-level contains, and of intersects with holes, is explored (metamorphic), not proved - it fails exactly on the known findings"],
 )
 
 PROPS["C04"] = dict(
@@ -82,7 +82,7 @@ PROPS["C04"] = dict(
     trusted_base=COMMON_TB + ["float64 byte layout of the R-tree node boxes: IndexExec.f64_bits (normal finite values k*2^-s) — exercised byte-for-byte by the correspondence, not proved equal to IEEE-754",
                               "quadtree mid-lines: the executable instance halves exactly on a grid pre-scaled by 2^16 (16 levels); the theorems hold for an arbitrary mid function"],
     assumptions=["encoded index smaller than 2^32 bytes (the u32 address fields wrap beyond it; same limit in the Go code)", "R-tree height <= 255 (stored in one byte)"],
-    partial=["predicates that consume the edge index of a point lying on a shared vertex (ring.go:127-185) may depend on search order: index independence there rests on the correspondence over the three index kinds (C01/C02/C03 streams), not on a theorem"],
+    partial=["predicates that consume the edge index of a point lying on a shared vertex (ring.go:127-185): proved independent of which of the segments through the point is reported, for rings whose segments meet only at their ends (IndexChoice.v: rcs_choice_independent; strict mode consults no index); for rings that touch or cross themselves it rests on the correspondence over the three index kinds (C01/C02/C03 streams)"],
 )
 
 OBJ_TB = COMMON_TB + ["object trees are built through the public constructors (NewPoint ... NewFeatureCollection) from an integer encoding; the child-index threshold is set through the verif hook VerifSetChildIndex (re-runs parseInitRectIndex)",
